@@ -2307,6 +2307,11 @@ def glom(target, spec, **kwargs):
     scope[ROOT] = scope
     scope[T] = target
     scope.update(kwargs.pop('scope', {}))
+    # when handed the scope of a running glom call, this is still a new
+    # evaluation: do not inherit the error bookkeeping of the calling one
+    for key in (NO_PYFRAME, LAST_CHILD_SCOPE, CUR_ERROR):
+        scope.maps[0].pop(key, None)
+    scope[CHILD_ERRORS] = []
     err = None
     if kwargs:
         raise TypeError('unexpected keyword args: %r' % sorted(kwargs.keys()))
